@@ -240,7 +240,9 @@ Definition expr_has_par (e : expr) : bool :=
 Definition pred_has_par (p : pred) : bool :=
   match p with Pred _ l r => expr_has_par l || expr_has_par r end.
 
-(* visit_bindparam(is_upsert_set=True): a value-less bindparam() inside a SET value *)
+(* visit_bindparam(is_upsert_set=True): a bindparam() filled from the parameter sets (value-less, or - since
+   5319231 - with a default but supplied by the parameter sets) inside a SET value or - since e3b606f - inside
+   the DO UPDATE ... WHERE; [APar] is exactly "filled from the parameter sets" *)
 Definition has_set_par (c : sa_clause) : bool :=
   match c with
   | SANothing _ => false
@@ -251,6 +253,9 @@ Definition has_where_par (c : sa_clause) : bool :=
   | SAUpdate _ _ (Some p) => pred_has_par p
   | _ => false
   end.
+
+(* has_upsert_bound_parameters *)
+Definition has_row_par (c : sa_clause) : bool := has_set_par c || has_where_par c.
 
 (* a bound literal inside index_where is rendered with literal_execute=True (sqlite only) *)
 Definition atom_is_bound (a : atom) : bool := match a with AConst false _ => true | _ => false end.
